@@ -50,6 +50,9 @@ def _worker(prop, modname, cid):
         out = _norm(cid, ret, prop)
     except Exception as e:
         if sys.stderr is None: sys.stderr = sys.__stderr__
+        if type(e).__name__ in ("Unsupported", "SidecarMismatch"):
+            # the code under contract has a shape the sidecar (loop invariants keyed by loop ordinal, engine subset) does not apply to: undecided, not a checker fault
+            return dict(cid=cid, results=[dict(name="sidecar", kind="ensures", status=UNKNOWN, secs=0, backend="", info=f"{type(e).__name__}: {e}")], functions=[], assumptions=[], samples=[], wall_s=round(time.time() - t0, 2))
         out = dict(cid=cid, results=[dict(name="harness", kind="harness", status=FAULT, secs=0, backend="",
                                           info=f"{type(e).__name__}: {e}", tb=traceback.format_exc()[-2000:])],
                    functions=[], assumptions=[], samples=[])
